@@ -75,6 +75,7 @@ StepOK(pre, ev, post) ==
     /\ C14_Auth(pre, ev, post)
     /\ C16_Create(pre, ev, post)
     /\ C16_Requested(pre, ev, post)
+    /\ C19_Monotone(pre, post)
     /\ C17_Update(pre, ev, post)
     /\ C07_FailedUnchanged(pre, ev, post)
 StepProp == [][StepOK(w, last', w')]_vars
